@@ -14,7 +14,7 @@ CONSTANTS NestTokens,   \* value tokens used inside containers
 
 NaNs == {"f_nan", "d_nan"}          \* x = x fails for them: not in the value universe of C01
 ScalarVals(k, pool) ==
-  IF k = "Any" THEN {Atom(t) : t \in {"i1", "s_a", "none"} \cap pool}
+  IF k \in {"Any", "object"} THEN {Atom(t) : t \in {"i1", "s_a", "none"} \cap pool}
   ELSE {Atom(t) : t \in {u \in pool : PyTypeOf[u] = ValuePyType[k]} \ NaNs}
 
 SeqsUpTo(S, n) == UNION {[1..m -> S] : m \in 0..n}
